@@ -24,7 +24,7 @@ fn contents(rng: &mut Rng, n: usize, kind: usize) -> Vec<f32> {
 fn check_source(c: usize, h: usize, w: usize, max_dim: usize, vals: &[f32], out: &mut Out) {
     let n = c * h * w;
     let src = format!("{}x{}x{}", c, h, w);
-    let mut fail = |out: &mut Out, sig: &str, what: String| {
+    let fail = |out: &mut Out, sig: &str, what: String| {
         out.viol(sig, what, J::obj().set("source", J::usizes(&[c, h, w])).set("values", J::f32s(&vals[..vals.len().min(64)])));
     };
     // construction
